@@ -309,22 +309,27 @@ Proof.
 Qed.
 
 
-(** * known finding: content merged in analysis order *)
-Lemma split_class_bases_refuted :
-  exists parts parts', Permutation parts parts' /\ known_split parts = true /\ merged_bases parts <> merged_bases parts'.
+(** * content merged in analysis order *)
+Lemma split_class_content_reproducible : forall parts parts',
+  NoDup (map cp_file parts) -> Permutation parts parts' -> merged_bases parts = merged_bases parts'.
 Proof.
-  exists [ {| cp_file := 1; cp_bases := [[70]] |}; {| cp_file := 2; cp_bases := [[66]] |} ],
-         [ {| cp_file := 2; cp_bases := [[66]] |}; {| cp_file := 1; cp_bases := [[70]] |} ].
-  split; [apply perm_swap|]. split; [reflexivity|]. vm_compute. discriminate.
+  intros parts parts' Hnd Hp. unfold merged_bases, merged_bases_f, update_files_sorted, sort_if.
+  rewrite (isort_perm_invariant _ _ cp_file N.compare N_total_order parts parts' Hnd Hp). reflexivity.
 Qed.
 
-Lemma split_class_outside_known : forall parts parts',
-  Permutation parts parts' -> known_split parts = false -> merged_bases parts = merged_bases parts'.
+Lemma split_class_reproducible_iff_sorted : forall sorted,
+  (forall parts parts', NoDup (map cp_file parts) -> Permutation parts parts' ->
+     merged_bases_f sorted parts = merged_bases_f sorted parts') <-> sorted = true.
 Proof.
-  intros parts parts' Hp Hk. destruct parts as [|a [|b r]].
-  - apply Permutation_nil in Hp. subst. reflexivity.
-  - apply Permutation_length_1_inv in Hp. subst. reflexivity.
-  - cbn in Hk. discriminate.
+  intros sorted. split.
+  - intros H. destruct sorted; [reflexivity|]. exfalso.
+    specialize (H [ {| cp_file := 1; cp_bases := [[70]] |}; {| cp_file := 2; cp_bases := [[66]] |} ]
+                  [ {| cp_file := 2; cp_bases := [[66]] |}; {| cp_file := 1; cp_bases := [[70]] |} ]).
+    assert (NoDup (map cp_file [ {| cp_file := 1; cp_bases := [[70]] |}; {| cp_file := 2; cp_bases := [[66]] |} ])) as Hnd.
+    { cbn. constructor; [|constructor; [|constructor]]; cbn; intuition discriminate. }
+    specialize (H Hnd (perm_swap _ _ _)). vm_compute in H. discriminate.
+  - intros -> parts parts' Hnd Hp. unfold merged_bases_f, sort_if.
+    rewrite (isort_perm_invariant _ _ cp_file N.compare N_total_order parts parts' Hnd Hp). reflexivity.
 Qed.
 
 (** * examples *)
